@@ -36,3 +36,43 @@ package acr
 //@     step [steps_of_each_child_added_once] child != prev ==> next(nsteps) == nsteps + tempsteps
 //@   loop 5
 //@     step [one_step_per_child_lacking_the_kept_state] next(nsteps) == nsteps + (child != prev && states[child.id][maxState] == 0.0 ? 1 : 0)
+
+// ---------------------------------------------------------------------------
+// Character parsimony, down-pass (property C12): the neighbour counts are accumulated in a buffer made for the
+// child (resp. for the node) and the result goes to that child's up-state (resp. to the node's own state)
+// ---------------------------------------------------------------------------
+
+//@ func acr.parsimonyDOWNPASS
+//@   flag noframe
+//@   requires cur != nil
+//@   call acr.computeParsimony@L1 [up_state_of_a_child_from_a_buffer_made_for_that_child] freshiter(a0) && a1 == upstates[child.id] && child != prev
+//@   call acr.parsimonyDOWNPASS [recursion_goes_to_the_children_only_with_the_same_tables] a0 == child && child != prev && a1 == cur && a2 == states && a3 == upstates
+
+// randomlyResolveNodeStates keeps one of the retained states, drawn with math/rand: rewrites state counts only (thin)
+//@ func acr.randomlyResolveNodeStates
+//@   requires node != nil
+//@   assigns elems("float64"), ghost(rand_count), ghost(rand_last), ghost(rand_range)
+
+// ---------------------------------------------------------------------------
+// DELTRAN (property C12): a non-root inner node keeps exactly the states it shares with its parent; when it
+// shares none, its states are left as they are
+// ---------------------------------------------------------------------------
+
+//@ define rowsok(states []AncestralState, n int) bool = forall r int :: {states[r]} 0 <= r && r < len(states) ==> len(states[r]) == n
+//@ define rowsapart(states []AncestralState) bool = forall r int, q int :: {states[r], states[q]} 0 <= r && r < q && q < len(states) ==> arr(states[r]) != arr(states[q])
+//@ func acr.parsimonyDELTRAN
+//@   flag noframe
+//@   requires cur != nil && 0 <= cur.id && cur.id < len(states) && (prev != nil ==> 0 <= prev.id && prev.id < len(states) && prev.id != cur.id)
+//@   requires rowsok(states, len(stateIndices)) && rowsapart(states)
+//@   loop 1
+//@     invariant [own_states_copied_so_far] len(state) == len(stateIndices) && fresh_arr(state) && (forall k int :: {state[k]} 0 <= k && k < len(state) ==> state[k] == (k <= rangeindex ? old(states[cur.id][k]) : 0.0))
+//@     invariant [tables_untouched] forall k int :: {states[cur.id][k]} {states[prev.id][k]} 0 <= k && k < len(stateIndices) ==> states[cur.id][k] == old(states[cur.id][k]) && states[prev.id][k] == old(states[prev.id][k])
+//@   loop 2
+//@     invariant [parent_states_added_so_far] len(state) == len(stateIndices) && fresh_arr(state) && (forall k int :: {state[k]} 0 <= k && k < len(state) ==> state[k] == old(states[cur.id][k]) + (k <= rangeindex ? old(states[prev.id][k]) : 0.0))
+//@     invariant [no_shared_state_seen_so_far_iff_flag] nullIntersection <==> (forall k int :: {state[k]} 0 <= k && k <= rangeindex ==> state[k] <= 1.0)
+//@     invariant [tables_untouched] forall k int :: {states[cur.id][k]} {states[prev.id][k]} 0 <= k && k < len(stateIndices) ==> states[cur.id][k] == old(states[cur.id][k]) && states[prev.id][k] == old(states[prev.id][k])
+//@   loop 3
+//@     invariant [sums_kept] len(state) == len(stateIndices) && fresh_arr(state) && (forall k int :: {state[k]} 0 <= k && k < len(state) ==> state[k] == old(states[cur.id][k]) + old(states[prev.id][k]))
+//@     invariant [node_keeps_exactly_the_states_shared_with_its_parent] forall k int :: {states[cur.id][k]} 0 <= k && k < len(stateIndices) ==> states[cur.id][k] == (k <= rangeindex ? (old(states[cur.id][k]) + old(states[prev.id][k]) > 1.0 ? 1.0 : 0.0) : old(states[cur.id][k]))
+//@     invariant [parent_untouched] forall k int :: {states[prev.id][k]} 0 <= k && k < len(stateIndices) ==> states[prev.id][k] == old(states[prev.id][k])
+//@     invariant [table_shape] rowsok(states, len(stateIndices)) && rowsapart(states)
